@@ -6,6 +6,7 @@ use std::collections::HashMap;
 use std::panic::{catch_unwind, AssertUnwindSafe};
 
 mod upper;
+mod spec;
 
 #[derive(Clone, Debug)]
 pub enum Outcome {
@@ -427,6 +428,38 @@ fn main() {
                 let m = mutate(&tok, st["ops"].as_array().map(|v| v.as_slice()).unwrap_or(&[]), &env);
                 trace.push(json!({"mutate": out, "token": m}));
                 env.strs.insert(out, m);
+            }
+            "spec_selftest" => {
+                let o = guarded(|| spec::selftest().map(|n| format!("{} vectors", n)));
+                trace.push(json!({"spec_selftest": o.text()}));
+                env.outs.insert(out, o);
+            }
+            "spec_build" => {
+                let proto = st["proto"].as_str().unwrap_or("");
+                let key = env.bytes_of(&st["key"]);
+                let nonce = env.bytes_of(&st["nonce"]);
+                let msg = env.str_of(&st["message"]).unwrap_or_default();
+                let f = env.str_of(&st["footer"]).unwrap_or_default();
+                let a = env.str_of(&st["assertion"]).unwrap_or_default();
+                let o = guarded(|| {
+                    if proto.ends_with("local") {
+                        spec::local_encrypt(proto, &key, &nonce, msg.as_bytes(), f.as_bytes(), a.as_bytes())
+                    } else {
+                        spec::public_sign(proto, &key, msg.as_bytes(), f.as_bytes(), a.as_bytes())
+                    }
+                });
+                trace.push(json!({"spec_build": out, "result": o.text()}));
+                env.outs.insert(out, o);
+            }
+            "spec_verify" => {
+                let proto = st["proto"].as_str().unwrap_or("");
+                let key = env.bytes_of(&st["key"]);
+                let tok = env.str_of(&st["token"]).unwrap_or_default();
+                let f = env.str_of(&st["footer"]).unwrap_or_default();
+                let a = env.str_of(&st["assertion"]).unwrap_or_default();
+                let o = guarded(|| spec::public_verify(proto, &tok, &key, f.as_bytes(), a.as_bytes()));
+                trace.push(json!({"spec_verify": out, "result": o.text()}));
+                env.outs.insert(out, o);
             }
             "differs" => {
                 // Ok when token b is a non-tolerated alteration of token a (not equal, not just an added/removed empty footer
